@@ -10,6 +10,7 @@ package main
 //   random          any use of math/rand, math/rand/v2 or crypto/rand
 //   getenv          os.Getenv / os.LookupEnv / os.Environ
 //   goStmt          a `go` statement
+//   syncUse         any use of package sync or sync/atomic inside a function (once-flags, atomics, mutexes: process memory)
 //   pkgVarWrite     assignment to (or through) a package-level variable outside `init`
 //   recvFieldWrite  a method assigning a field of its pointer receiver, or writing through a field (map / slice / pointer
 //                   element) of any receiver, whatever the receiver type (keepers, hooks, modules, decorators: memory that
@@ -300,6 +301,8 @@ func nondetExtractor(repo string) (map[string]string, error) {
 									add("random", fn, path+"."+x.Sel.Name, enclosing())
 								case path == "os" && (x.Sel.Name == "Getenv" || x.Sel.Name == "LookupEnv" || x.Sel.Name == "Environ"):
 									add("getenv", fn, "os."+x.Sel.Name, enclosing())
+								case path == "sync" || path == "sync/atomic":
+									add("syncUse", fn, path+"."+x.Sel.Name, enclosing())
 								}
 							}
 						}
